@@ -1,6 +1,7 @@
 package main
 
 import (
+	"runtime/pprof"
 	"flag"
 	"math/big"
 	"fmt"
@@ -310,6 +311,16 @@ func (w *World) runHarness(h *Harness) (res *Result) {
 }
 
 func main() {
+	if pf := os.Getenv("GOVC_CPUPROFILE"); pf != "" {
+		if f, err := os.Create(pf); err == nil {
+			pprof.StartCPUProfile(f)
+			go func() {
+				time.Sleep(25 * time.Second)
+				pprof.StopCPUProfile()
+				f.Close()
+			}()
+		}
+	}
 	if len(os.Args) < 2 {
 		fmt.Fprintln(os.Stderr, "usage: govc run|check|list ...")
 		os.Exit(2)
